@@ -2,12 +2,15 @@ package props
 
 import (
 	"fmt"
+	"reflect"
+	"regexp"
 	"strings"
 
 	"github.com/llir/llvm/ir"
 	"github.com/llir/llvm/ir/metadata"
 
 	"verif/fw"
+	"verif/gen"
 )
 
 // c17refs: every POSITION from which a numbered metadata node can be referenced. Two nodes !A and
@@ -190,4 +193,149 @@ func c17refs(c *fw.Check) {
 	if ok, e := fw.LLVMAccepts(c17refText(make([]int, np), [2]int{0, 1}, [2]bool{false, true}, false, false)); !ok && fw.HaveLLVM() {
 		fw.Fatalf("C17 reference-position module is not valid LLVM: %s", e)
 	}
+}
+
+// ---- part C: every specialised node kind, numbered and inline ---------------------------------------
+
+var (
+	reMDDef    = regexp.MustCompile(`(?m)^!(\d+) = `)
+	reMDRef    = regexp.MustCompile(`!(\d+)\b`)
+	reDIInline = regexp.MustCompile(`[({,] ?!(?:DI[A-Za-z]+|GenericDINode)\(`)
+)
+
+type c17genCase struct {
+	Entry   string   `json:"entry"`
+	Devs    []string `json:"deviations"`
+	Input   string   `json:"input"`
+	Printed string   `json:"printed,omitempty"`
+	What    string   `json:"what"`
+}
+
+// c17generated runs the metadata productions of the generator catalogue (all 28 specialised node
+// kinds with field subsets, distinct or not, numbered or written inline as a tuple operand; tuples,
+// strings, values, named metadata, attachments) through parse and print and checks the ID
+// discipline on the result: definitions have unique IDs, every printed reference names a defined
+// ID, a node that is not a definition has no ID (-1) and is printed inline, a node with an ID is the
+// object listed in MetadataDefs under that ID, and the number of inline specialised nodes is the
+// same in input and output.
+func c17generated(c *fw.Check) {
+	bound := 1
+	if !c.Quick() {
+		bound = 2
+	}
+	var vs []gen.Variant
+	for i, e := range gen.Catalogue() {
+		if !strings.HasPrefix(e.Name, "md-") {
+			continue
+		}
+		vs = append(vs, gen.Variants(e, i, bound)...)
+	}
+	c.Extra["generated_metadata_variants"] = len(vs)
+	fw.ParallelFor(len(vs), func(i int) {
+		v := vs[i]
+		x := gen.Module([]gen.Variant{v})
+		cs := c17genCase{Entry: v.Entry, Devs: v.Devs, Input: fw.Trunc(x, 3000)}
+		d := "default"
+		if len(v.Devs) > 0 {
+			d = strings.Join(v.Devs, ",")
+		}
+		fail := func(kind, what string) {
+			cs.What = what
+			c.Violation("generated/"+kind+"/"+v.Entry+"/"+d, cs)
+		}
+		m, errs, pan := parseTry(x)
+		if errs != "" || pan != "" {
+			return // acceptance is C01's business
+		}
+		c.DistinctN(1)
+		c.Valid(1)
+		defs := map[int64]metadata.Definition{}
+		for _, def := range m.MetadataDefs {
+			if _, dup := defs[def.ID()]; dup {
+				fail("duplicate-id", fmt.Sprintf("two definitions carry ID %d", def.ID()))
+			}
+			defs[def.ID()] = def
+		}
+		// walk: nodes reachable from definitions and named metadata.
+		seen := map[interface{}]bool{}
+		var walk func(v reflect.Value)
+		walk = func(v reflect.Value) {
+			switch v.Kind() {
+			case reflect.Interface:
+				if !v.IsNil() {
+					walk(v.Elem())
+				}
+			case reflect.Ptr:
+				if v.IsNil() || v.Type().Elem().Kind() != reflect.Struct || !strings.HasSuffix(v.Type().Elem().PkgPath(), "/ir/metadata") {
+					return
+				}
+				if seen[v.Interface()] {
+					return
+				}
+				seen[v.Interface()] = true
+				if idf := v.Elem().FieldByName("MetadataID"); idf.IsValid() {
+					id := idf.Int()
+					def, listed := v.Interface().(metadata.Definition)
+					switch {
+					case id >= 0 && (!listed || defs[id] != def):
+						fail("reference-not-definition", fmt.Sprintf("a reachable %s carries ID %d but is not the definition listed under that ID", v.Type().Elem().Name(), id))
+					}
+				}
+				walk(v.Elem())
+			case reflect.Struct:
+				for i := 0; i < v.NumField(); i++ {
+					if v.Type().Field(i).PkgPath == "" {
+						walk(v.Field(i))
+					}
+				}
+			case reflect.Slice:
+				for i := 0; i < v.Len(); i++ {
+					walk(v.Index(i))
+				}
+			}
+		}
+		for _, def := range m.MetadataDefs {
+			walk(reflect.ValueOf(def))
+		}
+		for _, nm := range m.NamedMetadataDefs {
+			walk(reflect.ValueOf(nm))
+		}
+		var y string
+		if p := fw.Try(func() { y = m.String() }); p != "" {
+			return // C01
+		}
+		cs.Printed = fw.Trunc(y, 3000)
+		defined := map[string]int{}
+		for _, mm := range reMDDef.FindAllStringSubmatch(y, -1) {
+			defined[mm[1]]++
+			if defined[mm[1]] > 1 {
+				fail("printed-duplicate-id", "the printed module defines !"+mm[1]+" twice")
+			}
+		}
+		for _, mm := range reMDRef.FindAllStringSubmatch(stripStrings(y), -1) {
+			if defined[mm[1]] == 0 {
+				fail("printed-dangling-reference", "the printed module refers to !"+mm[1]+", which it does not define")
+				break
+			}
+		}
+		if a, b := len(reDIInline.FindAllString(stripStrings(x), -1)), len(reDIInline.FindAllString(stripStrings(y), -1)); a != b {
+			fail("inline-placement", fmt.Sprintf("%d specialised nodes are written inline in the input, %d in the printed module", a, b))
+		}
+	})
+}
+
+// stripStrings blanks the contents of string literals.
+func stripStrings(s string) string {
+	b := []byte(s)
+	in := false
+	for i := 0; i < len(b); i++ {
+		if b[i] == '"' {
+			in = !in
+			continue
+		}
+		if in && b[i] != '\n' {
+			b[i] = 'x'
+		}
+	}
+	return string(b)
 }
